@@ -69,6 +69,9 @@ func checkC04(c *an.Ctx) {
 		if (op.Kind == "lock" || op.Kind == "rlock") && leafMutex(p, groupKey(op.OnVal)) {
 			return // a leaf lock around a few loads and stores: nothing is waited for while it is held
 		}
+		if snd, ok := op.Instr.(*ssa.Send); ok && slotPerStage(c, s, snd) {
+			return // a buffered channel with one slot per stage of the graph, one slot taken per launch: the send cannot block
+		}
 		badWait = true
 		c.Bad("C04.2", an.Short(fn)+":"+op.Kind+"("+groupKey(op.OnVal)+")", op.Instr.Pos(), "the scheduling loop can block on %s %s%s before the next pass: stages that became eligible meanwhile are not started", op.Kind, op.On, via)
 	}
@@ -306,4 +309,47 @@ func checkC04(c *an.Ctx) {
 	if okExits {
 		c.OK("C04.4", an.Short(s.launchFn)+":inner-exit", s.launch.Pos(), "the per-stage loop ends only by exhausting the nodes")
 	}
+}
+
+// slotPerStage: snd puts one element, per launch, into a channel this Schedule call made with room for as many
+// elements as the scheduled graph has stages. A stage is launched at most once (C03.1), so the channel never
+// fills up and the send never blocks.
+func slotPerStage(c *an.Ctx, s *sched, snd *ssa.Send) bool {
+	p := c.P
+	mk, ok := an.Resolve(snd.Chan).(*ssa.MakeChan)
+	if !ok || mk.Parent() != s.schedule {
+		return false
+	}
+	// capacity = len(<all nodes of the scheduled graph>)
+	capOK := false
+	for _, src := range an.Sources(mk.Size) {
+		call, ok := src.(*ssa.Call)
+		if !ok {
+			continue
+		}
+		if b, ok := call.Call.Value.(*ssa.Builtin); !ok || b.Name() != "len" {
+			continue
+		}
+		if graphs, ok := allNodesOf(p, call.Call.Args[0], 2); ok && len(graphs) > 0 {
+			capOK = true
+			for _, g := range graphs {
+				if !an.SameValue(g, s.schedule.Params[1]) {
+					capOK = false
+				}
+			}
+		}
+	}
+	if !capOK {
+		return false
+	}
+	// the only send on that channel, and it is on the way to the launch (one per launched stage)
+	n := 0
+	for _, f := range an.WithAnon(s.schedule) {
+		an.EachInstr(f, func(in ssa.Instruction) {
+			if x, ok := in.(*ssa.Send); ok && an.Resolve(x.Chan) == ssa.Value(mk) {
+				n++
+			}
+		})
+	}
+	return n == 1 && snd.Parent() == s.launchFn && an.Dominates(snd, s.launch)
 }
